@@ -8,7 +8,7 @@ import math
 import os
 import shutil
 
-from mc import core, e2, seams, tf, world
+from mc import core, e2, envcreate, envrun, seams, tf, world
 from mc.ref import bencode
 
 P0 = 16384
@@ -34,6 +34,18 @@ PAYLOADS = {
                   (("e",), 5)],
     "dir-eq": [(("caf\u00e9.bin",), 20000), (("cafe\u0301.bin",), P0 + 1),
                (("d", "f01"), 5), (("d", "f1"), 7)],
+}
+
+# process-environment axis: payloads whose names are not ASCII (what an ASCII
+# filesystem encoding hands the library surrogate-escaped) next to the plain
+# directory payload; (root name, entries)
+ENV_PAYLOADS = {
+    "dir-nonascii": ("données", [(("café.dat",), 20000),
+                                      (("d", "ü.bin"), P0 + 1),
+                                      (("plain.txt",), 5),
+                                      (("日本", "語.txt"), 7)]),
+    "file-nonascii": ("café.dat", [((), 2 * P0 + 7)]),
+    "dir": (NAME, PAYLOADS["dir"]),
 }
 
 SPELL_DIR = ["abs", "rel", "./rel", "rel/", "rel//", "rel/.", "a//rel",
@@ -128,6 +140,18 @@ class InfoHashCheck:
             "deviation",
             "every execution on a fresh copy of the payload under a path "
             "never used before in the process",
+            "process environment: every creator configuration (library "
+            "progress 0/1, command line --prog 0 / default) on a directory "
+            "and a single file with non-ASCII names and on the plain "
+            "directory, in a child interpreter under every member of "
+            "envrun.ENVS (terminal widths, -O, ASCII filesystem encoding / "
+            "POSIX locale, dead stdouts, removed cwd, -W error, debug switch, "
+            "recursion / descriptor / file-size limits, umasks, no HOME, time "
+            "zone, small io buffer); reading: in every environment the info "
+            "dictionary equals the one made in the harness's own (UTF-8) "
+            "process and info.name is the on-disk base name, or no metafile "
+            "is written -- a refusal is not judged (except in the default "
+            "environment)",
         ]
         self.rule = (
             "E2 stateless exploration: choice points = configuration axes "
@@ -143,7 +167,114 @@ class InfoHashCheck:
             for cname, _ in CREATORS:
                 gs.append({"payload": pk, "creator": cname, "seed": seed,
                            "tier": tier})
+        for name in envrun.ENVS:
+            gs.append({"kind": "env", "env": name, "seed": seed,
+                       "tier": tier})
         return gs
+
+    # ------------------------------------------------- environment axis
+    def run_env(self, g):
+        res = core.Result()
+        seed, envname = g["seed"], g["env"]
+        sb = world.fresh_dir("c8env_")
+        ops, metas, base = [], {}, {}
+        for pk, (rootname, entries) in ENV_PAYLOADS.items():
+            parent = os.path.join(sb, pk)
+            os.makedirs(parent)
+            files = [(e[0], world.content(seed, e[2] if len(e) > 2 else i,
+                                          e[1]))
+                     for i, e in enumerate(entries)]
+            path = world.materialize(files, parent, name=rootname)
+            outdir = os.path.join(sb, "out-" + pk)
+            os.mkdir(outdir)
+            for cname, ckw in CREATORS:
+                creator = cname.split("+")[0]
+                # the reference observation: the same create in the harness's
+                # own process (UTF-8 everywhere, no terminal)
+                tf.reset_process_state()
+                raw0 = tf.create(creator, path,
+                                 os.path.join(outdir, cname + ".base"), P0,
+                                 **ckw)
+                m0 = bencode.decode(raw0, strict=False)
+                base[(pk, cname)] = bencode.encode(bencode.plain(m0[b"info"]))
+                if m0[b"info"].get(b"name") != rootname.encode("utf-8"):
+                    res.violation(f"C08|{cname}|{pk}|name-not-base-name|"
+                                  "default", {"kind": "env", "env": envname,
+                                              "seed": seed, "tier": g["tier"],
+                                              "op": "base"},
+                                  m0[b"info"].get(b"name"))
+                for pr in (0, 1):
+                    oid = f"{pk}/{cname}/lib{pr}"
+                    of = os.path.join(outdir, f"{cname}-lib{pr}.torrent")
+                    ops.append(envcreate.lib_op(oid, creator, path, of, P0,
+                                                pr, ckw))
+                    metas[oid] = (pk, cname)
+                if cname in CLI_VERSION:
+                    for tag, extra in (("cli0", ["--prog", "0"]), ("cli", [])):
+                        oid = f"{pk}/{cname}/{tag}"
+                        of = os.path.join(outdir, f"{cname}-{tag}.torrent")
+                        argv = ["create", {"hex": envcreate.hexpath(path)},
+                                "-o", {"hex": envcreate.hexpath(of)},
+                                "--meta-version", CLI_VERSION[cname],
+                                "--piece-length", str(P0)] + extra
+                        if ckw.get("align"):
+                            argv.append("--align")
+                        ops.append(envcreate.cli_op(oid, argv, of))
+                        metas[oid] = (pk, cname)
+        recs, rep = envcreate.run_ops(envname, ops)
+        res.states += 1
+        res.extra["env_children"] += 1
+        if envname != "default":
+            res.extra["nontrivial"] += 1
+        if not rep["report"]:
+            res.outcomes[f"env:{envname}/child-did-not-report"] += 1
+            if envname == "default":
+                raise core.InfraError(
+                    "the default-environment child did not report: " +
+                    str(rep.get("err"))[-300:])
+        for op in ops:
+            oid = op["id"]
+            pk, cname = metas[oid]
+            r = recs.get(oid)
+            res.transitions += 1
+            res.evals += 1
+            case = {"kind": "env", "env": envname, "seed": seed,
+                    "tier": g["tier"], "op": oid}
+            if r is None:
+                res.outcomes[f"env:{envname}/not-reached"] += 1
+                continue
+            raw = r.get("raw")
+            outcome = r["outcome"].split(":")[0]
+            prob = None
+            if raw is None:
+                if envname == "default":
+                    prob = "create-failed"
+            else:
+                res.validated += 1
+                m = info = None
+                try:
+                    m = bencode.decode(raw, strict=False)
+                    info = bencode.encode(bencode.plain(m[b"info"]))
+                except Exception as e:  # noqa
+                    prob = "metafile-unreadable:" + type(e).__name__
+                if info is not None and info != base[(pk, cname)]:
+                    b0 = bencode.plain(bencode.decode(base[(pk, cname)]))
+                    i1 = bencode.plain(m[b"info"])
+                    diff = sorted(k.decode("utf-8", "replace")
+                                  for k in set(i1) | set(b0)
+                                  if i1.get(k) != b0.get(k))
+                    prob = "info-differs:" + "+".join(diff)
+            res.outcomes[
+                f"env:{envname}/{outcome}/"
+                f"{'no-metafile' if raw is None else prob or 'ok'}"] += 1
+            if prob:
+                res.violation(f"C08|{cname}|{pk}|{prob}|env:{envname}", case,
+                              {"op": oid, "outcome": r["outcome"],
+                               "msg": r.get("msg")})
+        res.sample({"kind": "env", "env": envname, "ops": len(ops),
+                    "reported": rep["report"]})
+        shutil.rmtree(sb, ignore_errors=True)
+        return res
 
     def one_run(self, run, g, base):
         pk, cname, seed = g["payload"], g["creator"], g["seed"]
@@ -277,6 +408,8 @@ class InfoHashCheck:
         return out
 
     def run_group(self, g):
+        if g.get("kind") == "env":
+            return self.run_env(g)
         res = core.Result()
         bound = 2 if g["tier"] == "quick" else 3
         ex = e2.Explorer(bound, max_runs=400000)
@@ -341,6 +474,11 @@ class InfoHashCheck:
         return res
 
     def replay(self, case):
+        if case.get("kind") == "env":
+            r = self.run_env({k: case[k] for k in ("kind", "env", "seed",
+                                                   "tier")})
+            return [{"sig": v["sig"], "detail": v["detail"]}
+                    for v in r.violations if v["case"]["op"] == case["op"]]
         g = case["group"]
         base = {}
         r0 = self.one_run(e2.Run([]), g, base)
